@@ -55,6 +55,11 @@ func c07Graphs(thorough bool) []c07Graph {
 		c07Graph{desc: "dotted-name-relative-before-layouts", files: map[string]string{"pages/p.vuego": c07Page("card.v2"), "pages/card.v2.vuego": c07Layout("rel-card", "", ""), "layouts/card.v2.vuego": c07Layout("dir-card", "", "")}, page: "pages/p.vuego", want: []string{"rel-card", "page"}},
 		c07Graph{desc: "dotted-name-inside-chain", files: map[string]string{"p.vuego": c07Page("a"), "layouts/a.vuego": c07Layout("a", "site.min", ""), "layouts/site.min.vuego": c07Layout("site.min", "", "")}, want: []string{"site.min", "a", "page"}},
 		c07Graph{desc: "dotted-name-fallback-from-subdir", files: map[string]string{"pages/p.vuego": c07Page("v1.2"), "layouts/v1.2.vuego": c07Layout("v1.2", "", "")}, page: "pages/p.vuego", want: []string{"v1.2", "page"}},
+		// the rendered page IS a layout file: the default layout applied to itself is a chain of two links that ends; a named layout rendered
+		// as a page goes on to the layout it names
+		c07Graph{desc: "page-is-the-default-layout", files: map[string]string{"layouts/base.vuego": c07Layout("base", "", "")}, page: "layouts/base.vuego", want: []string{"base", "base"}},
+		c07Graph{desc: "page-is-a-named-layout", files: map[string]string{"layouts/post.vuego": c07Layout("post", "base", ""), "layouts/base.vuego": c07Layout("base", "", "")}, page: "layouts/post.vuego", want: []string{"base", "post"}},
+		c07Graph{desc: "page-is-a-layout-without-layout-key", files: map[string]string{"layouts/post.vuego": c07Layout("post", "", ""), "layouts/base.vuego": c07Layout("base", "", "")}, page: "layouts/post.vuego", want: []string{"base", "post"}},
 		c07Graph{desc: "self-cycle", files: map[string]string{"p.vuego": c07Page("a"), "layouts/a.vuego": c07Layout("a", "a", "")}, wantErr: true},
 		c07Graph{desc: "cycle-2", files: map[string]string{"p.vuego": c07Page("a"), "layouts/a.vuego": c07Layout("a", "b", ""), "layouts/b.vuego": c07Layout("b", "a", "")}, wantErr: true},
 		c07Graph{desc: "cycle-3", files: map[string]string{"p.vuego": c07Page("a"), "layouts/a.vuego": c07Layout("a", "b", ""), "layouts/b.vuego": c07Layout("b", "c", ""), "layouts/c.vuego": c07Layout("c", "a", "")}, wantErr: true},
